@@ -53,6 +53,12 @@ namespace cnl::_impl {
         if constexpr (InExponent < 0) {
             for (int in_exponent = InExponent; in_exponent != 0;) {
                 if (output.significand % InRadix) {
+                    if constexpr (InRadix == OutRadix) {
+                        // multiplying by OutRadix and dividing by InRadix cancel out
+                        output.exponent--;
+                        in_exponent++;
+                        continue;
+                    }
                     if (oob(output.significand)) {
                         if (Precise) {
                             unreachable<descaled<Significand, OutRadix>>("number cannot be represented in this form");
